@@ -10,7 +10,7 @@
    payload is read from its offset to the END of the buffer, as jbtf v0.2.0 does).
    [no_overread]: no File parameter's payload is followed by further buffer content (known finding
    graph:file-param-overread: otherwise the statement is false of the code, see the last theorem). *)
-From Coq Require Import String.
+From Coq Require Import String Ascii List ZArith.
 From PF Require Import Base.Bytes Graph.Schema Graph.SchemaProofs Graph.Instance Graph.InstanceProofs Check.C12.
 Open Scope N_scope.
 
@@ -100,6 +100,91 @@ Proof.
   destruct file_overread_refuted_witness as [A B]. split; assumption.
 Qed.
 Print Assumptions file_overread_refuted.
+
+(* 9. the REPAIRED reading discipline (a reader limited to the view's byteLength, [decode_fixed]): statement 1
+      holds after every edit history with NO side condition; theorem 8 stays as the refutation of the faithful
+      model, and the two readers agree wherever the faithful one does not over-read *)
+Theorem reload_same_repaired : forall (T : table) (h : list op),
+  table_ok T -> decode_fixed T (encode T (run T h)) = Some (run T h).
+Proof. exact InstanceProofs.reload_same_fixed. Qed.
+Print Assumptions reload_same_repaired.
+
+Theorem repaired_reader_agrees : forall (T : table) (h : list op),
+  table_ok T -> no_overread T (i_nodes (run T h)) ->
+  decode T (encode T (run T h)) = decode_fixed T (encode T (run T h)).
+Proof. exact InstanceProofs.reload_fixed_agrees. Qed.
+Print Assumptions repaired_reader_agrees.
+
+(* 10. life after the reload — what the binding's continuation oracle ([contobs]) checks: every further edit
+       history c gives, on the reloaded graph, the same graph and the same outcome of every operation as on the
+       graph that was saved (faithful reader under the side condition, repaired reader unconditionally) ... *)
+Theorem continuation_same : forall (T : table) (h c : list op) (s' : inst),
+  table_ok T -> no_overread T (i_nodes (run T h)) ->
+  decode T (encode T (run T h)) = Some s' ->
+  run_from T s' c = run_from T (run T h) c.
+Proof. exact InstanceProofs.continuation_same. Qed.
+Print Assumptions continuation_same.
+
+Theorem continuation_same_repaired : forall (T : table) (h c : list op) (s' : inst),
+  table_ok T -> decode_fixed T (encode T (run T h)) = Some s' ->
+  run_from T s' c = run_from T (run T h) c.
+Proof. exact InstanceProofs.continuation_same_fixed. Qed.
+Print Assumptions continuation_same_repaired.
+
+(* ... the result is the graph of the concatenated history and survives the next save/load as well ... *)
+Theorem reload_continue_reload : forall (T : table) (h c : list op) (s' : inst),
+  table_ok T -> decode_fixed T (encode T (run T h)) = Some s' ->
+  let s2 := fst (run_from T s' c) in
+  s2 = run T (h ++ c) /\ decode_fixed T (encode T s2) = Some s2.
+Proof. exact InstanceProofs.reload_then_continue_then_reload. Qed.
+Print Assumptions reload_continue_reload.
+
+(* ... and the first node created after a reload gets an id that is not in use in the reloaded graph, the very id
+   the saved graph would have handed out (ids freed by deletions included: seeded change C12-F's class) *)
+Theorem new_id_after_reload_is_fresh : forall (T : table) (h : list op) (s' : inst),
+  table_ok T -> decode_fixed T (encode T (run T h)) = Some s' ->
+  ~ In (alloc (ids_of s')) (ids_of s') /\ alloc (ids_of s') = alloc (ids_of (run T h)).
+Proof. exact InstanceProofs.new_id_after_reload_is_fresh. Qed.
+Print Assumptions new_id_after_reload_is_fresh.
+
+(* 11. same BYTES: [render] (Graph/Schema.v) is the JSON text of a save — encoding/json's MarshalIndent layout as
+       jbtf/polyform call it (tab indentation, struct fields in declaration order, map keys sorted, omitempty,
+       {} / [], HTML-safe escaping), with the text of a float ([show_num]), of the buffer ([show_buf]) and the
+       registered type names delegated.  Whatever these are, saving the reloaded graph gives the same text *)
+Theorem resave_same_bytes_text :
+  forall (show_num : N -> string) (show_buf : list N -> string) (tyname : nat -> string) (sorted : nat -> bool)
+         (hd : header) (T : table) (h : list op) (s' : inst),
+  table_ok T -> no_overread T (i_nodes (run T h)) ->
+  decode T (encode T (run T h)) = Some s' ->
+  render show_num show_buf tyname sorted hd (encode T s') = render show_num show_buf tyname sorted hd (encode T (run T h)).
+Proof. intros. f_equal. eapply InstanceProofs.resave_same; eassumption. Qed.
+Print Assumptions resave_same_bytes_text.
+
+Theorem resave_same_bytes_text_repaired :
+  forall (show_num : N -> string) (show_buf : list N -> string) (tyname : nat -> string) (sorted : nat -> bool)
+         (hd : header) (T : table) (h : list op) (s' : inst),
+  table_ok T -> decode_fixed T (encode T (run T h)) = Some s' ->
+  render show_num show_buf tyname sorted hd (encode T s') = render show_num show_buf tyname sorted hd (encode T (run T h)).
+Proof.
+  intros until s'. intros HT H. rewrite InstanceProofs.reload_same_fixed in H by assumption. injection H as <-. reflexivity.
+Qed.
+Print Assumptions resave_same_bytes_text_repaired.
+
+(* the lexical layer of the text determines what it denotes: a quoted string (and where it ends) determines the
+   string, an integer text the integer.  (Injectivity of the whole printer — same bytes => same schema — is NOT
+   proved; see notes/C12.md.) *)
+Theorem string_escaping_read_back : forall (s s' X Y : string),
+  (esc s ++ String """"%char X = esc s' ++ String """"%char Y)%string -> s = s' /\ X = Y.
+Proof. exact esc_prefix_free. Qed.
+Print Assumptions string_escaping_read_back.
+
+Theorem quoted_strings_injective : forall s s' : string, quote s = quote s' -> s = s'.
+Proof. exact quote_inj. Qed.
+Print Assumptions quoted_strings_injective.
+
+Theorem integer_text_injective : forall a b : Z, zdec a = zdec b -> a = b.
+Proof. exact zdec_inj. Qed.
+Print Assumptions integer_text_injective.
 
 (* non-vacuity: the table of the binding (the repository's parameter types, array-input processors, artifact
    nodes) is well formed, and a history with 11 array connections meets the hypotheses and reloads *)
